@@ -7,6 +7,7 @@ from vlib.term import to_coq, z
 
 ID = 'C02'
 PROP_FILE = 'Props/C02.v'
+EXTRA_PROP_FILES = ['Props/C02Atomic.v']     # K1: fetch-add / CAS accessors are one atomic RMW each (ordering table from the source)
 EVAL_FILES = ['Oracle/C02Oracle.v', 'Oracle/C02SoloOracle.v']
 CRATES = ['c02']
 MODES = ['debug']
@@ -147,7 +148,8 @@ def base_case(rng, bits=None, npub=2, nmsg=None, env=False, near_end=None):
     tl = 1 << bits
     mtu = rng.choice([64, 96, 128, 256])
     init = rng.choice([5, 0, -3, 2**31 - 2, 2**31 - 1, -2**31, rng.randrange(-2**31, 2**31)])
-    n0 = rng.choice([0, 0, 1, 2, 7])
+    # term counts far from 0 as well: stream positions beyond 2^31 and 2^32 (term count <= 2^30 is the model's domain)
+    n0 = rng.choice([0, 0, 1, 2, 7, 2**21, 2**21 + 1, 2**22 + 5, 2**26, 2**30 - 3])
     if near_end is None:
         near_end = rng.random() < 0.6
     maxm = tl // 8
